@@ -335,6 +335,14 @@ impl SortedUintVec {
             return Err(ZiporaError::invalid_data("sorted uint vec image length mismatch"));
         }
         let mut result = Self::with_config(config)?;
+        // Every element owns `offset_width` bits of delta data (the configuration was validated
+        // just above, so the width is at least 8): an element count the data section cannot
+        // hold is malformed, and left unchecked it overflows the block arithmetic of `get`.
+        if size > data_len.saturating_mul(8) / config.offset_width as usize {
+            return Err(ZiporaError::invalid_data(
+                "sorted uint vec image declares more elements than its data holds",
+            ));
+        }
         result.index.extend(bytes[32..32 + index_len].iter().copied())?;
         result.data.extend(bytes[32 + index_len..total].iter().copied())?;
         result.size = size;
